@@ -74,6 +74,7 @@ func verifyUnit1(l *Loader, pkgPath, key string, fixed map[string]Val, suffix st
 	ex := NewExec(l, res.Name)
 	res.Exec = ex
 	ex.UseBodyOf = c.UseBody
+	ex.UnitTimeout = c.Timeout
 	ex.Partial = map[string]bool{}
 	for _, k := range c.Partial {
 		ex.Partial[k] = true
@@ -199,7 +200,7 @@ func verifyUnit1(l *Loader, pkgPath, key string, fixed map[string]Val, suffix st
 							name = fmt.Sprintf("%s.p%d", name, pi+1)
 						}
 						sub := &Obl{Name: name, Kind: kind, Unit: ex.Unit, Assume: parent.Assume, Reach: rs.Reach, Goal: tr,
-							Pos: parent.Pos, Src: cl.Src, Bounded: ex.Bounded, Inputs: ex.Inputs, Trivial: tr.IsTrue()}
+							Pos: parent.Pos, Src: cl.Src, Bounded: ex.Bounded, Inputs: ex.Inputs, Trivial: tr.IsTrue(), Secs: parent.Secs}
 						if dv := debugEvals(envr); len(dv) > 0 {
 							sub.Inputs = append(append([]NamedVal{}, ex.Inputs...), dv...)
 						}
